@@ -511,8 +511,8 @@ impl E2Run for Malformed {
 
     fn budget(&self, tier: &Tier) -> (u64, u64) {
         match tier {
-            Tier::Quick => (4_000, 60),
-            Tier::Thorough => (600_000, 3000),
+            Tier::Quick => (60_000, 50),
+            Tier::Thorough => (4_000_000, 3000),
         }
     }
 
